@@ -138,8 +138,26 @@ mx.register_u("c12", c12_u)
 
 
 # ------------------------------------------------------------------------------------------------ C07
+def _atoms_of(dom, m):
+    if m.cls is dom.ME:
+        yield m
+    elif m.cls in (dom.MM, dom.MU):
+        for c in m.f["markers"]:
+            yield from _atoms_of(dom, c)
+
+
 def c07_u(dom, J, m):
     _c07_one(dom, J, m, "")
+    # R07.9: rendering must not depend on lazily attached caches — fill every atom's specifier view (as any earlier & / | would) and render again
+    filled = False
+    for a in _atoms_of(dom, m):
+        try:
+            dom.it.getattr(a, "specifier")
+            filled = True
+        except PyRaise:
+            pass
+    if filled:
+        _c07_one(dom, J, m, " [after the atoms' specifier caches were filled]")
     if m.cls in (dom.MM, dom.MU):
         names = sorted(dom.names(m))
         for meth, args in [("without_extras", ())] + [("exclude", (n,)) for n in names[:2]] + [("only", (n,)) for n in names[:2]]:
